@@ -12,6 +12,7 @@ BASE = "simulator/network/hardware/base.py"
 TERM = "simulator/system/services/terminal/terminal.py"
 SVC = "simulator/system/services/service.py"
 HOST = "simulator/network/hardware/nodes/host/host_node.py"
+ROUTER = "simulator/network/hardware/nodes/network/router.py"
 
 _CMP = {ast.LtE: "le", ast.Lt: "lt", ast.GtE: "ge", ast.Gt: "gt", ast.Eq: "eq"}
 
@@ -164,7 +165,7 @@ def _package_inventory():
 
 
 def _lean_list(xs: List[str]) -> str:
-    return "[" + ", ".join('"' + x.replace('"', '\\"') + '"' for x in xs) + "]"
+    return "[" + ", ".join('"' + " ".join(x.replace('"', '\\"').split()) + '"' for x in xs) + "]"
 
 
 def _b(x: bool) -> str:
@@ -443,6 +444,43 @@ def emit() -> str:
     rf = find_method(hn, "receive_frame")
     port_gate = any(isinstance(n, ast.If) and "dst_port in self.software_manager.get_open_ports()" in ast.unparse(n.test) for n in ast.walk(rf))
 
+    # ---- the local command path, statement by statement: every entry point hands the supplied credentials to `_login`, whose result
+    # is the only credential check; `_login` authenticates before it looks at the current local session
+    def _stmts(fn):
+        out = []
+        for x in _body(fn):
+            if isinstance(x, ast.Expr) and ast.unparse(x).startswith(("self.sys_log", "_LOGGER")):
+                continue
+            if isinstance(x, ast.If):
+                out.append("if " + ast.unparse(x.test) + ": " + "; ".join(ast.unparse(y) for y in x.body if not ast.unparse(y).startswith("self.sys_log"))
+                           + (" else: " + "; ".join(ast.unparse(y) for y in x.orelse if not ast.unparse(y).startswith("self.sys_log")) if x.orelse else ""))
+            else:
+                out.append(ast.unparse(x))
+        return out
+    ler = next((n for n in ast.walk(irm) if isinstance(n, ast.FunctionDef) and n.name == "local_execute_request"), None)
+    if ler is None:
+        raise ValueError("local_execute_request not found")
+    local_handler = [x for x in _stmts(ler) if not x.startswith("return")]
+    process_local = _stmts(find_method(term, "_process_local_login"))
+    node_local_login = _stmts(find_method(node, "local_login"))
+    usm_local_login = _stmts(find_method(usm, "local_login"))
+    term_login = _stmts(find_method(term, "login"))
+    # in `_login`: the positions of the first read of `self.local_session` and of the authenticate call
+    first_local_read = min((n.lineno for n in ast.walk(lg) if isinstance(n, ast.Attribute) and ast.unparse(n) == "self.local_session"), default=0)
+    auth_line = min((n.lineno for n in ast.walk(lg) if isinstance(n, ast.Call) and ast.unparse(n.func).endswith("authenticate_user")), default=10 ** 9)
+    rejects = [n.lineno for n in ast.walk(lg) if isinstance(n, ast.If) and ast.unparse(n.test) == "not user"]
+    login_auth_first = bool(rejects) and auth_line < rejects[0] < first_local_read
+    login_returns = sorted({ast.unparse(n.value) if n.value is not None else "None" for n in ast.walk(lg) if isinstance(n, ast.Return)})
+
+    # ---- Router: ARP frames are exempt from the ACL; a router that is not ON drops every frame before anything else
+    rt = class_def(parse(ROUTER), "Router")
+    sta = _body(find_method(rt, "subject_to_acl"))
+    arp_exempt = [ast.unparse(x.test) + " -> " + "; ".join(ast.unparse(y) for y in x.body) if isinstance(x, ast.If) else ast.unparse(x)
+                  for x in sta]
+    rrf = _body(find_method(rt, "receive_frame"))
+    router_off_drops = (isinstance(rrf[0], ast.If) and ast.unparse(rrf[0].test) == "self.operating_state != NodeOperatingState.ON"
+                        and ast.unparse(rrf[0].body[0]) == "return")
+
     verbs_lean = "[" + ", ".join(f'("{a}", "{b}", "{c}")' for a, b, c in verbs) + "]"
     tested_lean = "[" + ", ".join(f'("{m}", {_lean_list(v)})' for m, v in tested.items()) + "]"
     states_lean = "[" + ", ".join(f'("{a}", {b})' for a, b in states) + "]"
@@ -527,6 +565,18 @@ def serviceVerbs : List (String × String × String) := {verbs_lean}
 /-- states accepted inside each lifecycle method (sorted) -/
 def methodStates : List (String × List String) := {tested_lean}
 def restartFinishTest : String := "{restart_test}"
+/-- `Terminal.local_execute_request` (handler of send_local_command) without its return statements -/
+def localCommandHandler : List String := {_lean_list(local_handler)}
+def processLocalLogin : List String := {_lean_list(process_local)}
+def nodeLocalLogin : List String := {_lean_list(node_local_login)}
+def usmLocalLogin : List String := {_lean_list(usm_local_login)}
+def terminalLogin : List String := {_lean_list(term_login)}
+/-- in `_login`: `authenticate_user` is called, then `if not user: return None`, and only then `self.local_session` is read -/
+def loginAuthenticatesBeforeLookingAtTheLocalSession : Bool := {_b(login_auth_first)}
+def loginReturnValues : List String := {_lean_list(login_returns)}
+/-- `Router.subject_to_acl`, statement by statement -/
+def routerSubjectToAcl : List String := {_lean_list(arp_exempt)}
+def routerOffDropsEveryFrame : Bool := {_b(router_off_drops)}
 def hostDropsFramesForClosedPorts : Bool := {_b(port_gate)}
 end Primaite.Gen.Session
 """
